@@ -353,6 +353,27 @@ def proj_after_L(body):
     return m.group(1).strip() if m else body
 
 
+def proj_possible(body):
+    """C09: the driver says whether the observation is one the model can produce; the implementation side is the observation itself"""
+    return body if body.startswith(("possible", "impossible")) else "possible"
+
+
+def c09_features(case):
+    head = case["ops"][0] if case["ops"] else ""
+    kv = dict(w.split("=", 1) for w in head.split() if "=" in w)
+    kinds = {"fmt=" + kv.get("fmt", "?"), "sc=" + kv.get("sc", "?"), "mode=" + kv.get("mode", "?")}
+    trace = [kv.get("fmt", "?"), kv.get("sc", "?"), kv.get("mode", "?")]
+    for op, obs in zip(case["ops"][1:], case["impl"][1:]):
+        ev = split_obs(obs)[0].split(" ")[0]
+        trace.append(ev)
+        w = op.split(" | ")[-1].split()
+        if len(w) >= 4 and w[0].isdigit() and w[3].isdigit():
+            kinds.add("reader-saw-" + ("new" if int(w[3]) > int(w[0]) else "old") + "-length")
+        if " w=1" in obs:
+            kinds.add("other-thread-had-to-wait")
+    return trace, kinds
+
+
 def c10_features(case):
     head = case["ops"][0] if case["ops"] else ""
     kv = dict(w.split("=", 1) for w in head.split() if "=" in w)
@@ -404,6 +425,9 @@ def openlock_features(case):
             pass
     return trace, (kinds if len(kinds) >= 3 else set())
 
+
+ENGINES.append({"name": "c09", "path": "harness/src/c09_engine.rs + harness/src/dsched.rs + lean/Driver/C09Proto.lean", "serves_properties": ["C09"],
+     "kind_free_text": "directed schedules of one real writer (push…; write()) against real readers on BytesVec<u64>, ZeroCopyVec<u32>, PcoVec<u64>, LZ4Vec<u64>, ZstdVec<u32>: write that fits, grows the last region, relocates, crosses a page boundary from a partial tail page, starts on a page boundary, makes the file grow; mode w: the writer is parked at EVERY lock event of its write() in turn and a reader battery runs on a read-only clone (len, collect_range, collect_one, fold, read_into, cursor, and VecReader for the raw formats); mode r: a reader is parked at every lock event of one long read — in particular between loading the shared length and creating its rawdb Reader — while the writer performs the whole write; model-free oracle: observed length is the old or the new one and never decreases, every element below it is readable and equals the pushed value, no panic, nobody blocked for good; each observation is also checked against the Lean model (is there an interleaving of the model that yields it?)"})
 
 ENGINES.append({"name": "c10", "path": "harness/src/c10_engine.rs + harness/src/dsched.rs + lean/Driver/C10Proto.lean", "serves_properties": ["C10"],
      "kind_free_text": "directed schedules on one real database: thread A runs one operation on its region (create — also with the only hole of a full file —, write that fits / extends the last region / expands into a hole / relocates into a hole / relocates to the end / grows the file, truncate, remove, rename, flush, compact) and is parked at EVERY lock event of that operation in turn (request, acquisition, release, reported by the guarded lock shim); while it is parked thread B runs a script on its own regions (create+write, create+write+grow, grow+flush+create, compact, flush+reuse of freed extents); model-free oracle: no panic, nobody blocked for good, every region holds exactly what its own thread wrote (checked by B after each step and for all regions at the end), C02 extent invariants at the end, a Reader of A's region created before the schedule still returns A's bytes; the final layout is checked by the Lean driver with the disjointness check proved sound against the model"})
@@ -540,6 +564,18 @@ PROPS = {
         level_text="Lean 4 theorems over the transliterated read paths: a one-source lazy vector's range read is exactly the formula on [from, min(to,len)) (C15_from1_range); point reads of all arities are the formula and yield nothing beyond the governing length (C15_from_one, C15_from_oob, C15_from_range_oob); the delta vector's point read is source[h] - source[start-1] without panic whenever the window starts at or before h, nothing out of range (C15_delta_one, C15_delta_oob); the sparse aggregation's point read is the formula, nothing out of range (C15_agg_one, C15_agg_oob, C15_agg_range_oob). The two places where the code violates the property are kept as model counterexamples and replayed witnesses (F7, F8). The window arithmetic of the delta range path and the slot table of the aggregation range path are validated by the correspondence (six range APIs = formula = model) on clean mappings; their Lean range theorems are not done yet.",
         level_note="Trusted: Lean kernel + standard axioms; hand-written model; harness. F22 (collect_range with a huge upper bound panicked) found here, repaired by a fix: commit.",
         technique="Lean 4 proof over transliterated lazy read paths + differential run of all read APIs against the defining formula and the model",
+    ),
+    "C09": dict(
+        lean="AnyDB.Props.C09",
+        runs=[
+            Run("c09", "schedules", [], (52, 3), (52, 1), proj_possible, ["C09", "panic"], c09_features, clean=False),
+        ],
+        rule="cases = 5 formats × scenarios {fits, grow_last, relocate, grow_file; compressed also page_cross, page_boundary} × mode {writer parked, reader parked} = 52; per case: the schedule without parking, then the subject parked at its k-th lock event for k = 1+o, 1+o+s, … (s = 3, offset o from the seed, in the quick tier; s = 1 = every event in the thorough tier); non-trivial = at least two of: reader saw the old length, reader saw the new length, the other thread had to wait for a lock; distinct = distinct (case, parking-event sequence)",
+        assumptions=["one writer; readers go through read-only clones, VecReader and cursors (the property's readers); schedules are directed at lock-event granularity on a strongly ordered machine (x86-64): reorderings below the Release/Acquire pair are not exhibited",
+                     "the writer only appends (the property's scenario); truncation under concurrent readers is not part of C09"],
+        level_text="Lean 4 theorems over two small-step models whose writer programs are assembled from the call orders extracted from the source (C09_programs, C09_comp_programs: Region::write_with fits/relocation paths + what raw write() does after truncate_write; both paths of compressed write(); readers load the length before they create the rawdb Reader / take the index lock; Reader::new takes start and length under one metadata guard). Raw formats, EVERY interleaving of the writer's effects (data copy, region length, relocation copy, move, publication) with a reader's steps (load length, snapshot, read): a read below the loaded length returns exactly the writer's value at that index — also from an old extent after a relocation (C09_read_prefix, via the invariant step_inv/run_inv); loaded lengths never decrease (C09_len_monotone, pub_mono); with publication first the model exhibits the failure (C09_reordered_counterexample). Compressed formats, every interleaving in which each write starts on a page boundary or extends the raw tail page: the reader's read of [0,l) is exactly the first l values (C09_comp_read_partial via phase_index/step_inv); the full statement is false: a write crossing a page boundary from a partial tail page overwrites that page before taking the index lock and a reader holding the old index decodes garbage (C09_comp_counterexample = F17, known finding, reproduced on the real crates); publication before the index update — the seeded change — is refuted too (C09_comp_reordered_counterexample). Tied to the code by the extractor and by the directed schedules: every lock event of the real write() and of a real long read, five formats, six scenarios, model-free prefix/monotonicity/readability oracle, and every real observation checked for being producible by the model.",
+        level_note="Trusted: Lean kernel + standard axioms; extractor; lock shim as the source of parking points; hand-written models (program ORDER comes from the source, the meaning of each effect is written by hand). Not exhibited: weak-memory reorderings, torn element reads, truncation under concurrent readers. Blocking: in the models every reader step is enabled except rLock while the writer holds the index lock, which it releases after two more of its own steps; on the real code every schedule has a 20 s limit per thread (none reached). F17 is recorded, not repaired: taking the index lock before the data write would nest it around the region/layout locks against the order of C11 (the code comment says so).",
+        technique="Lean 4 proof (invariants over all interleavings of extracted writer programs with reader steps) + directed schedules over every lock event of real writers and readers with a model-free oracle and a model-possibility check",
     ),
     "C10": dict(
         lean="AnyDB.Props.C10",
